@@ -86,11 +86,20 @@ def exec_env(pid):
 
 
 def main_cfg(flags):
-    """the trace configuration with the deviations the probes have shown"""
+    """the trace configuration with the deviations the probes have shown, per component (the variables of the two components
+    a trace does not touch are kept minimal: TLC's cost per state follows the size of the state)"""
     txt = open(os.path.join(vlib.SPECS, FAMILY, TCFG)).read()
     for sw in flags:
         txt = txt.replace("%s = FALSE" % sw, "%s = TRUE" % sw)
-    return ("Eth2WrapTrace_run_%s.cfg" % ("_".join(sorted(s[3:] for s in flags)) or "strict"), txt)
+    name = "_".join(sorted(s[3:] for s in flags)) or "strict"
+    per = {}
+    for m in "SLV":
+        t = txt
+        for other in "SLV":
+            if other != m:
+                t = re.sub(r" %sCalls = \{[^}]*\}" % other, " %sCalls = {1}" % other, t)
+        per[m] = ("Eth2WrapTrace_run_%s_%s.cfg" % (m, name), t)
+    return lambda trace: per[trace[0]["mode"]]
 
 
 # ----------------------------------------------------------------------------------------------------------------------
@@ -360,7 +369,7 @@ def random_S(r, big):
                 s.append(call(nxt(), n, op, fees=[{"v": v, "tok": r.randint(1, 200)} for v in r.sample(vals + [77], r.randint(0, 2))],
                               auto=autos(r, 1, 0.2)))
             else:
-                s.append(call(nxt(), n, op, epoch=e, slot=r.choice([0, 1, e * spe + r.randrange(spe)]), auto=autos(r, 12, 0.08)))
+                s.append(call(nxt(), n, op, epoch=e, slot=r.choice([1, 2, e * spe + r.randrange(spe)]), auto=autos(r, 12, 0.08)))
                 if op == "proposal" and r.random() < 0.5:
                     submit_from(c, n)
                 if op != "proposal" and r.random() < 0.25:
@@ -407,31 +416,37 @@ def random_ans(r, perr=0.2):
 
 
 def random_V(r, big):
-    s, c = [{"ev": "Cfg", "mode": "V", "pubkeys": r.sample(range(1, 9), r.randint(1, 5))}], 0
+    s, c, out = [{"ev": "Cfg", "mode": "V", "pubkeys": r.sample(range(1, 9), r.randint(1, 5))}], 0, 0
+    cap = 4 if big else 3     # calls that may be under way at once (the trace spec infers the order in which they got the lock)
 
     def one():
-        nonlocal c
+        nonlocal c, out
         c += 1
+        out += 1
         op = r.choice(["head", "head", "head", "slot", "trim"])
         return vcall(c, op, r.choice([5, 64, 65, 1000]) if op == "slot" else 0)
 
-    for _ in range(r.randint(3, 22)):
+    for _ in range(r.randint(3, 24)):
         x = r.random()
-        if x < 0.35 and c < 12:
+        if x < 0.35 and c < 12 and out < cap:
             st = one()
             if r.random() < 0.5:
                 st["auto"] = [random_ans(r) for _ in range(r.choice([1, 2]))]
+                out = max(0, out - 1)
             s.append(st)
-        elif x < 0.5 and c < 10:
-            s.append({"ev": "Burst", "calls": [one() for _ in range(r.choice([2, 2, 3]))]})
-        elif x < 0.9:
+        elif x < 0.45 and c < 10 and out + 2 <= cap:
+            s.append({"ev": "Burst", "calls": [one() for _ in range(2 if out + 3 > cap else r.choice([2, 3]))]})
+        elif x < 0.9 or not c:
             a = random_ans(r)
             a["ev"] = "AnsAny"
             s.append(a)
-        elif c:
+            out = max(0, out - 1)
+        else:
             a = random_ans(r)
             a.update({"ev": "Ans", "c": r.randint(1, c)})
             s.append(a)
+    for _ in range(3):
+        s.append({"ev": "AnsAny", "how": "ok", "vals": random_valset(r)})
     return s
 
 
@@ -871,14 +886,13 @@ def main(tier="quick", seed=1, pid="GETH2WRAP"):
 
 
 def probe_flags(o, kw):
-    """the deviations of the tree: one directed probe each through the regular known-finding path"""
-    flags = []
-    for fid, mk in PROBES:
-        before = len(o.known)
-        vlib.conformance(o, FAMILY, TRACE, TCFG, PKG, [mk()], tag="probe_" + fid.split("-")[-1], dev_cfgs=[(fid, DEV_CFG[fid])], **kw)
-        if any(k == fid for k, _ in o.known[before:]):
-            flags.append([sw for f, sw, _ in FINDINGS if f == fid][0])
-    return flags
+    """the deviations of the tree: one directed probe each, through the regular known-finding path (a rejected probe is
+    re-executed and then tried against the configuration that switches exactly its deviation on)"""
+    before = len(o.known)
+    vlib.conformance(o, FAMILY, TRACE, TCFG, PKG, [mk() for _, mk in PROBES], tag="e2wprobe", max_report=len(PROBES),
+                     dev_cfgs=[(fid, DEV_CFG[fid]) for fid, _ in PROBES], **kw)
+    found = {k for k, _ in o.known[before:]}
+    return [sw for fid, sw, _ in FINDINGS if fid in found]
 
 
 def replay(path):
